@@ -357,6 +357,17 @@ func runOne(r *sim.Run) {
 				r.Violate(r.Prop, "debug", "author-bug", "scratch node rejected the author's block at depth %d slot %d (parent depth %d slot %d, fork=%v, tickets=%d): %v", cb.depth, b.Header.Slot, parent.depth, parent.block.Header.Slot, fork, len(b.Extrinsic.Tickets), err)
 				return
 			}
+			// C23: the slot-sealer sequence is prescribed by the property. A block whose author is exactly the validator
+			// the prescribed sequence names for the slot, refused by a clean node BECAUSE OF ITS SEAL, means the node derived
+			// another sequence (the node never gets to export it: the block that would carry it is refused)
+			if r.Prop == "C23" && (strings.Contains(err.Error(), "BadSealSignature") || strings.Contains(err.Error(), "UnexpectedAuthor")) {
+				if ok, kind := ru.sealedAsPrescribed(parent.state, &b); ok {
+					e1, m1 := epochOf(parent.state.Tau)
+					e2, _ := epochOf(b.Header.Slot)
+					r.Violate("C23", "sealer-sequence", "block-of-prescribed-sealer-refused:"+kind, "block depth %d slot %d (epoch %d->%d, prior slot index %d, prior accumulator %d) is sealed by the validator the %s sealer sequence names for its slot, a clean node refuses it: %v", cb.depth, b.Header.Slot, e1, e2, m1, len(parent.state.Gamma.GammaA), kind, err)
+					return
+				}
+			}
 			plain := merklization.MerklizationSerializedState(parent.kvs)
 			r.Logf("author bug? scratch node rejected block at depth %d slot %d (parent depth %d root %x, uncached root of parent export %x): %v", cb.depth, b.Header.Slot, parent.depth, parent.root[:4], plain[:4], err)
 			// the scratch node may now be in the state a rejected block leaves behind: start it again from the parent path
